@@ -217,6 +217,43 @@ func createLastInsertIDResult(lastInsertID uint64, asName string) *mysql.Result 
 	return ret
 }
 
+// HasShardTableToken conservatively reports whether any word inside the tokens is the name
+// of a table that has a shard rule (sharded, linked or global) in any database of the router.
+// CheckUnshardBase / CheckUnshardInsert / CheckUnshardUpdate only look at the single token
+// next to FROM / INTO / SET, compare case-sensitively and are blinded by comments, aliases,
+// comma joins, JOIN, sub-queries and a missing INTO; this scan looks at every word, lower-cased.
+// A false positive (e.g. a column named like a sharded table) only means that the statement
+// is planned by the parser-based path instead of the token pre-check.
+func HasShardTableToken(tokens []string, rt *router.Router) bool {
+	rules := rt.GetAllRules()
+	if len(rules) == 0 {
+		return false
+	}
+	isWordByte := func(c byte) bool {
+		return c == '_' || c == '$' || c >= 0x80 || (c >= '0' && c <= '9') || (c >= 'a' && c <= 'z') || (c >= 'A' && c <= 'Z')
+	}
+	for _, token := range tokens {
+		for i := 0; i < len(token); {
+			if !isWordByte(token[i]) {
+				i++
+				continue
+			}
+			j := i
+			for j < len(token) && isWordByte(token[j]) {
+				j++
+			}
+			word := strings.ToLower(token[i:j])
+			for _, tableRules := range rules {
+				if _, ok := tableRules[word]; ok {
+					return true
+				}
+			}
+			i = j
+		}
+	}
+	return false
+}
+
 func CheckUnshardBase(tokenId int, tokens []string, rt *router.Router, db string) (string, bool) {
 	ruleDB := db
 	tokensLen := len(tokens)
